@@ -150,11 +150,18 @@ func runPausedPair(d *dag.DAG, sel datamodel.Node, tb *tables, inL, inR func(int
 			case <-ctx.Done():
 			}
 		}
-		res = <-donec
-		if res.o.hang && os.Getenv("DLOADER_DEBUG") != "" {
-			buf := make([]byte, 1<<20)
-			n := runtime.Stack(buf, true)
-			fmt.Fprintf(os.Stderr, "HANG after pause: visits=%d\n%s\n", len(res.o.visits), buf[:n])
+		if os.Getenv("DLOADER_DEBUG") != "" {
+			select {
+			case res = <-donec:
+			case <-time.After(8 * time.Second):
+				buf := make([]byte, 1<<21)
+				n := runtime.Stack(buf, true)
+				ps := req.PeerState(world.Nodes[1].ID())
+				fmt.Fprintf(os.Stderr, "HANG after pause (8s) safe=%v block=%d outgoing=%v pending=%v active=%v\n%s\nENDHANG\n", safe, block, ps.OutgoingState.RequestStates, ps.OutgoingState.Pending, ps.OutgoingState.Active, buf[:n])
+				res = <-donec
+			}
+		} else {
+			res = <-donec
 		}
 	}
 	o := res.o
